@@ -486,102 +486,7 @@ func checkC17(c *Ctx, r *Report) {
 	}
 
 	// ---- C17.c idempotent insertion
-	ruleGuarded(c, r, "C17.c", addEdge, "descriptor-insert-only-when-absent",
-		func(ins ssa.Instruction) bool {
-			mu, ok := ins.(*ssa.MapUpdate)
-			if !ok {
-				return false
-			}
-			_, isDesc := mu.Value.Type().(*types.Named)
-			return isDesc && strings.HasSuffix(mu.Value.Type().String(), "SymbolEdgeDescriptor")
-		},
-		func(a *sliceAtoms, cnd ssa.Value) bool { return isCommaOk(cnd) && a.Calls[pkgSdg+".edgeMapKey"] }, false, 1,
-		"re-adding an existing (from, to, kind) edge neither replaces the descriptor nor consumes an ordinal")
-	ruleGuarded(c, r, "C17.c", addEdge, "ordinal-only-when-absent",
-		func(ins ssa.Instruction) bool {
-			cl, ok := ins.(ssa.CallInstruction)
-			return ok && strings.HasSuffix(calleeName(cl), ".getAndIncrementNextEdgeOrdinal")
-		},
-		func(a *sliceAtoms, cnd ssa.Value) bool { return isCommaOk(cnd) && a.Calls[pkgSdg+".edgeMapKey"] }, false, 1,
-		"an ordinal is consumed only for a new edge")
-	if fi := need(c, r, "C17.c", guard); fi != nil {
-		viol := ""
-		var sites []string
-		// returns the existing node under Version.Equals; otherwise RemoveNode(existing.Id)
-		okRet := false
-		for _, ex := range exitsOf(fi.SSA) {
-			if ex.Ret == nil || len(ex.Ret.Results) != 3 {
-				continue
-			}
-			n0 := stripTrivial(unspill(ex.Ret.Results[0], ex.Block))
-			if isNilConst(n0) {
-				continue
-			}
-			sites = append(sites, w.pos(retPos(ex)))
-			for _, f := range guardsOfBlock(ex.Block) {
-				cnd, p := unwrapNot(f.Cond, f.Pol)
-				if cl, ok := cnd.(*ssa.Call); ok && p && strings.HasSuffix(calleeName(cl), "FileVersion).Equals") {
-					okRet = true
-				}
-			}
-			if a := sliceOf(n0); !a.hasFieldNamed("nodes") {
-				viol = fmt.Sprintf("%s: the node returned as existing is not the one stored in the graph", w.pos(retPos(ex)))
-			}
-		}
-		if !okRet {
-			viol = "idempotencyGuard does not return the stored node under `existing.Version.Equals(version)`"
-		}
-		rn := callsIn(fi.SSA, false, nameIs(rmNode))
-		if len(rn) != 1 {
-			viol = "idempotencyGuard does not evict a stale node"
-		}
-		for _, cl := range rn {
-			sites = append(sites, w.pos(cl.Pos()))
-			g := false
-			for _, f := range guardsOf(cl) {
-				cnd, p := unwrapNot(f.Cond, f.Pol)
-				if c2, ok := cnd.(*ssa.Call); ok && !p && strings.HasSuffix(calleeName(c2), "FileVersion).Equals") {
-					g = true
-				}
-			}
-			if !g {
-				viol = fmt.Sprintf("%s: the eviction is not limited to a differing file version", w.pos(cl.Pos()))
-			}
-		}
-		r.add("C17.c", "guardedby", guard+":same-version-returns-existing", "re-adding a node under the same file version returns the stored node; a newer version evicts the stale one first", []string{guard}, sites, viol)
-	}
-	if fi := need(c, r, "C17.c", create); fi != nil {
-		viol := ""
-		var sites []string
-		for _, cl := range callsIn(fi.SSA, false, nameIs(addNode)) {
-			sites = append(sites, w.pos(cl.Pos()))
-			g := false
-			for _, f := range guardsOf(cl) {
-				cnd, _ := unwrapNot(f.Cond, f.Pol)
-				a := sliceOf(cnd)
-				if a.Calls[guard] {
-					g = true
-				}
-			}
-			if !g {
-				viol = fmt.Sprintf("%s: a node is created without consulting idempotencyGuard", w.pos(cl.Pos()))
-			}
-		}
-		if len(sites) != 1 {
-			viol = "expected one addNode call in createAndAddSymNode"
-		}
-		ruleWhoCalls(c, r, "C17.c", nameIs(guard), guard, []string{create}, 1, "every declared-symbol node goes through createAndAddSymNode -> idempotencyGuard")
-		r.add("C17.c", "guardedby", create+":guarded-creation", "a new node is created only when the guard found none (or evicted a stale one)", []string{create}, sites, viol)
-	}
-	for _, fnk := range []string{"(*" + pkgSdg + ".SymbolGraph).addBuiltinSymbol", "(*" + pkgSdg + ".SymbolGraph).addComposite"} {
-		ruleGuarded(c, r, "C17.c", fnk, "addNode-only-when-absent",
-			func(ins ssa.Instruction) bool {
-				cl, ok := ins.(ssa.CallInstruction)
-				return ok && calleeName(cl) == addNode
-			},
-			func(a *sliceAtoms, cnd ssa.Value) bool { return isCommaOk(cnd) && a.hasFieldNamed("nodes") }, false, 1,
-			"built-in/composite nodes are created once; later requests return the stored node")
-	}
+	checkGraphIdempotency(c, r, "C17.c")
 
 	// ---- C17.d queries read the index that the mutators maintain
 	for _, q := range []struct {
@@ -670,3 +575,112 @@ func keysOfBool(m map[string]bool) []string {
 
 // posBefore compares two "file:line" strings of the same file.
 func posBefore(a, b string) bool { return posLess(a, b) }
+
+// checkGraphIdempotency: re-inserting an existing node or edge changes nothing (shared by C17.c and C19.a).
+func checkGraphIdempotency(c *Ctx, r *Report, clause string) {
+	w := c.W
+	const (
+		addNode = "(*" + pkgSdg + ".SymbolGraph).addNode"
+		addEdge = "(*" + pkgSdg + ".SymbolGraph).AddEdge"
+		rmNode  = "(*" + pkgSdg + ".SymbolGraph).RemoveNode"
+		guard   = "(*" + pkgSdg + ".SymbolGraph).idempotencyGuard"
+		create  = "(*" + pkgSdg + ".SymbolGraph).createAndAddSymNode"
+	)
+	ruleGuarded(c, r, clause, addEdge, "descriptor-insert-only-when-absent",
+		func(ins ssa.Instruction) bool {
+			mu, ok := ins.(*ssa.MapUpdate)
+			if !ok {
+				return false
+			}
+			_, isDesc := mu.Value.Type().(*types.Named)
+			return isDesc && strings.HasSuffix(mu.Value.Type().String(), "SymbolEdgeDescriptor")
+		},
+		func(a *sliceAtoms, cnd ssa.Value) bool { return isCommaOk(cnd) && a.Calls[pkgSdg+".edgeMapKey"] }, false, 1,
+		"re-adding an existing (from, to, kind) edge neither replaces the descriptor nor consumes an ordinal")
+	ruleGuarded(c, r, clause, addEdge, "ordinal-only-when-absent",
+		func(ins ssa.Instruction) bool {
+			cl, ok := ins.(ssa.CallInstruction)
+			return ok && strings.HasSuffix(calleeName(cl), ".getAndIncrementNextEdgeOrdinal")
+		},
+		func(a *sliceAtoms, cnd ssa.Value) bool { return isCommaOk(cnd) && a.Calls[pkgSdg+".edgeMapKey"] }, false, 1,
+		"an ordinal is consumed only for a new edge")
+	if fi := need(c, r, clause, guard); fi != nil {
+		viol := ""
+		var sites []string
+		// returns the existing node under Version.Equals; otherwise RemoveNode(existing.Id)
+		okRet := false
+		for _, ex := range exitsOf(fi.SSA) {
+			if ex.Ret == nil || len(ex.Ret.Results) != 3 {
+				continue
+			}
+			n0 := stripTrivial(unspill(ex.Ret.Results[0], ex.Block))
+			if isNilConst(n0) {
+				continue
+			}
+			sites = append(sites, w.pos(retPos(ex)))
+			for _, f := range guardsOfBlock(ex.Block) {
+				cnd, p := unwrapNot(f.Cond, f.Pol)
+				if cl, ok := cnd.(*ssa.Call); ok && p && strings.HasSuffix(calleeName(cl), "FileVersion).Equals") {
+					okRet = true
+				}
+			}
+			if a := sliceOf(n0); !a.hasFieldNamed("nodes") {
+				viol = fmt.Sprintf("%s: the node returned as existing is not the one stored in the graph", w.pos(retPos(ex)))
+			}
+		}
+		if !okRet {
+			viol = "idempotencyGuard does not return the stored node under `existing.Version.Equals(version)`"
+		}
+		rn := callsIn(fi.SSA, false, nameIs(rmNode))
+		if len(rn) != 1 {
+			viol = "idempotencyGuard does not evict a stale node"
+		}
+		for _, cl := range rn {
+			sites = append(sites, w.pos(cl.Pos()))
+			g := false
+			for _, f := range guardsOf(cl) {
+				cnd, p := unwrapNot(f.Cond, f.Pol)
+				if c2, ok := cnd.(*ssa.Call); ok && !p && strings.HasSuffix(calleeName(c2), "FileVersion).Equals") {
+					g = true
+				}
+			}
+			if !g {
+				viol = fmt.Sprintf("%s: the eviction is not limited to a differing file version", w.pos(cl.Pos()))
+			}
+		}
+		r.add(clause, "guardedby", guard+":same-version-returns-existing", "re-adding a node under the same file version returns the stored node; a newer version evicts the stale one first", []string{guard}, sites, viol)
+	}
+	if fi := need(c, r, clause, create); fi != nil {
+		viol := ""
+		var sites []string
+		for _, cl := range callsIn(fi.SSA, false, nameIs(addNode)) {
+			sites = append(sites, w.pos(cl.Pos()))
+			g := false
+			for _, f := range guardsOf(cl) {
+				cnd, _ := unwrapNot(f.Cond, f.Pol)
+				a := sliceOf(cnd)
+				if a.Calls[guard] {
+					g = true
+				}
+			}
+			if !g {
+				viol = fmt.Sprintf("%s: a node is created without consulting idempotencyGuard", w.pos(cl.Pos()))
+			}
+		}
+		if len(sites) != 1 {
+			viol = "expected one addNode call in createAndAddSymNode"
+		}
+		ruleWhoCalls(c, r, clause, nameIs(guard), guard, []string{create}, 1, "every declared-symbol node goes through createAndAddSymNode -> idempotencyGuard")
+		r.add(clause, "guardedby", create+":guarded-creation", "a new node is created only when the guard found none (or evicted a stale one)", []string{create}, sites, viol)
+	}
+	for _, fnk := range []string{"(*" + pkgSdg + ".SymbolGraph).addBuiltinSymbol", "(*" + pkgSdg + ".SymbolGraph).addComposite"} {
+		ruleGuarded(c, r, clause, fnk, "addNode-only-when-absent",
+			func(ins ssa.Instruction) bool {
+				cl, ok := ins.(ssa.CallInstruction)
+				return ok && calleeName(cl) == addNode
+			},
+			func(a *sliceAtoms, cnd ssa.Value) bool { return isCommaOk(cnd) && a.hasFieldNamed("nodes") }, false, 1,
+			"built-in/composite nodes are created once; later requests return the stored node")
+	}
+
+}
